@@ -665,44 +665,47 @@ Definition clear_acc (w : world) : world :=
   set_hedge w (w_hedges w) (w_bg w)
     {| hs_grp := hs_grp hs; hs_max := hs_max hs; hs_cond := hs_cond hs; hs_count := hs_count hs; hs_sent := hs_sent hs; hs_acc := None |}.
 
+(* attempt k of the run is prepared and started (CopyForCancellable / CopyForHedge + OnHedge; go innerFn(hedgeExec)):
+   the new copy has index [length (w_copies w)] and its cancel scope index [length (w_scopes w)] *)
+Definition hedge_start (pos total : nat) (c k : nat) (w : world) : world :=
+  let cp := get_copy w c in
+  let s := length (w_scopes w) in
+  let c' := length (w_copies w) in
+  let w1 := set_scopes w (w_scopes w ++ [ {| sc_deadline := None; sc_fired := false; sc_done := None; sc_copy := c'; sc_pos := pos |} ])
+                       (w_seq w) (w_ext w) in
+  let w2 := set_copies w1 (w_copies w1 ++ [ {| cp_chain := s :: cp_chain cp; cp_last := cp_last cp; cp_start := cp_start cp |} ]) in
+  let w3 := match k with
+            | O => w2
+            | S _ =>
+                let w' := set_hedge (set_counters w2 (w_attempts w2 + 1) (w_retries w2) (w_executions w2))
+                                    (w_hedges w2 + 1) (w_bg w2) (w_hs w2) in
+                emit w' KHedge pos (snapshot w' c') 0
+            end in
+  let st := next_step w3 in
+  let w4 := set_script w3 (rest_script w3) in
+  let w5 := emit w4 KFnStart total (snapshot w4 c') (match k with O => 0 | S _ => 1 end) in
+  let b := {| bg_grp := hs_grp (w_hs w5); bg_idx := k; bg_copy := c'; bg_pos := total; bg_finish := w_now w5 + fs_dur st;
+              bg_out := fs_out st; bg_coop := match fs_coop st with Some o => Some (o, fs_lag st) | None => None end |} in
+  refresh_bg (set_hedge w5 (w_hedges w5) (b :: w_bg w5) (w_hs w5)).
+
 Fixpoint hedge_loop (fuel : nat) (cfg : hedge_cfg) (pos total : nat) (c : nat) (k : nat) (started : list (nat * nat)) (w : world)
-  : presult * world :=
+  : presult * world * list Z (* ghost: the instants at which attempts k, k+1, ... were started *) :=
   match fuel with
-  | O => (failure_result EOther, set_oof w)
+  | O => (failure_result EOther, set_oof w, [])
   | S fuel' =>
-      let cp := get_copy w c in
-      let s := length (w_scopes w) in
-      let c' := length (w_copies w) in
-      let w1 := set_scopes w (w_scopes w ++ [ {| sc_deadline := None; sc_fired := false; sc_done := None; sc_copy := c'; sc_pos := pos |} ])
-                           (w_seq w) (w_ext w) in
-      let w2 := set_copies w1 (w_copies w1 ++ [ {| cp_chain := s :: cp_chain cp; cp_last := cp_last cp; cp_start := cp_start cp |} ]) in
-      (* CopyForHedge + OnHedge *)
-      let w3 := match k with
-                | O => w2
-                | S _ =>
-                    let w' := set_hedge (set_counters w2 (w_attempts w2 + 1) (w_retries w2) (w_executions w2))
-                                        (w_hedges w2 + 1) (w_bg w2) (w_hs w2) in
-                    emit w' KHedge pos (snapshot w' c') 0
-                end in
-      (* go innerFn(hedgeExec): the function starts on the copy *)
-      let st := next_step w3 in
-      let w4 := set_script w3 (rest_script w3) in
-      let w5 := emit w4 KFnStart total (snapshot w4 c') (match k with O => 0 | S _ => 1 end) in
-      let b := {| bg_grp := hs_grp (w_hs w5); bg_idx := k; bg_copy := c'; bg_pos := total; bg_finish := w_now w5 + fs_dur st;
-                  bg_out := fs_out st; bg_coop := match fs_coop st with Some o => Some (o, fs_lag st) | None => None end |} in
-      let w6 := refresh_bg (set_hedge w5 (w_hedges w5) (b :: w_bg w5) (w_hs w5)) in
-      let started' := started ++ [(c', s)] in
+      let w6 := hedge_start pos total c k w in
+      let started' := started ++ [(length (w_copies w), length (w_scopes w))] in
       let t_end := if Nat.ltb k (hg_max cfg) then Some (w_now w6 + hg_delay cfg) else None in
       let '(_, w7) := advance (wait_fuel w6) w6 t_end (Some c) true in
       match is_canceled w7 c with
-      | Some cr => (cr, w7)
+      | Some cr => (cr, w7, [w_now w6])
       | None =>
           match hs_acc (w_hs w7) with
-          | Some (idx, out) => (all_true out, refresh_bg (cancel_others (clear_acc w7) started' 0 idx))
+          | Some (idx, out) => (all_true out, refresh_bg (cancel_others (clear_acc w7) started' 0 idx), [w_now w6])
           | None =>
               match t_end with
-              | Some _ => hedge_loop fuel' cfg pos total c (S k) started' w7
-              | None => (failure_result EOther, set_oof w7)
+              | Some _ => let '(r, w8, ts) := hedge_loop fuel' cfg pos total c (S k) started' w7 in (r, w8, w_now w6 :: ts)
+              | None => (failure_result EOther, set_oof w7, [w_now w6])
               end
           end
       end
@@ -712,7 +715,7 @@ Definition hedge_layer (pos total : nat) (cfg : hedge_cfg) : layer := fun c w =>
   let hs := w_hs w in
   let w0 := set_hedge w (w_hedges w) (w_bg w)
               {| hs_grp := S (hs_grp hs); hs_max := hg_max cfg; hs_cond := hg_cancel cfg; hs_count := 0; hs_sent := false; hs_acc := None |} in
-  hedge_loop (S (S (hg_max cfg))) cfg pos total c 0 [] w0.
+  fst (hedge_loop (S (S (hg_max cfg))) cfg pos total c 0 [] w0).
 
 (* ---------------- composition (executor.go execute) --------------------- *)
 
